@@ -125,5 +125,14 @@ CLAIMED.update({
     },
 })
 
+CLAIMED.update({
+    "C20": {
+        "text": "Coq theorems (closed under the global context) over the model of the server's encoders, for EVERY document text: every diagnostic names an existing line with start <= end <= the line's width in UTF-16 code units (C20_inbounds, from C05_diag and the monotonicity of the byte-offset -> UTF-16 column map); the diagnostics are exactly the analyzer's mapped messages, one each (C20_complete); the delta-encoded semantic tokens decode, with no subtraction underflowing, to exactly the analyzer's tokens in order (C20_tokens_decode), each inside its line (C20_tokens_inbounds) with a type index below the legend's 8 entries (C20_token_types; class->index map and legend order regenerated from the Rust into Gen/Tables.v). What is published depends on the latest text only (lsp_answer is a function of it). Liveness and the tie to the code are checked on the real abasic-lsp binary over stdio on every run: open/change/semanticTokens sequences, every answer compared with the model's and with an independent UTF-16 oracle, final request answered, exit status 0.",
+        "design_ref": "DESIGN.md 6 C20",
+        "note": NOTE + "PARTIAL on the runtime side: process liveness, JSON-RPC framing and the lsp-server threads are exercised, not modelled; malformed notifications are outside the property's quantifier. C20_inbounds carries C05's side condition msg_ok (tokenizer-error messages come from pass 1). A document's lines are its LF-separated pieces (the server's notion): for CRLF documents a column may lie on the CR, which LSP 3.17 clients clamp.",
+        "technique": "Coq proof: in-bounds and decode/encode theorems over the encoders, on top of the analyzer invariant (C05) and tokenizer ranges (C13); real-binary JSON-RPC sessions compared with the model + independent UTF-16 oracle",
+    },
+})
+
 _TODO = "check under construction in this session; not claimed until its theorems and correspondence are in place"
-NOT_CLAIMED = {p: _TODO for p in ["C03", "C06", "C19", "C20"]}
+NOT_CLAIMED = {p: _TODO for p in ["C03", "C06", "C19"]}
